@@ -158,7 +158,7 @@ def gen_file(rng, mname, mode):
             k = rng.randrange(1, len(l))
             c = rng.random()
             if c < 0.35:
-                l[k] = rng.choice(["f(v1, v2)", "[v1,v2]", "(v1, (v2, v3))", "{v1, v2}", "{v1}", "f({v1, v2})"])  # braces are ordinary characters
+                l[k] = rng.choice(["f(v1, v2)", "[v1,v2]", "(v1, (v2, v3))", "{v1, v2}", "{v1}", "f({v1, v2})", '"v1, v2"', "'v1, v1'", '"v2"', 'v1", "v2'])  # braces and quotes are ordinary characters
             elif c < 0.6:
                 l = l[: rng.randrange(1, len(l))]  # shorter than the filter may be
             elif c < 0.75:
